@@ -146,6 +146,60 @@ def run(tier):
     if helpers and ncasts == 0:
         ck.closed_fail.append("R2: conversion helpers %s contain no float->int cast (conversion happens somewhere unseen)" % sorted(helpers))
 
+    # ---------------- R3 text -> double
+    ck.rule("R3.correctly-rounded-reader", "numeric literals and numeric strings become doubles only through the correctly rounded parser (str::parse::<f64>) or ONE integer->float cast; the readers do no f64 arithmetic", floor=4)
+    readers = [f for f in fx.fns.values() if f.file.endswith("src/lexer.rs") or f.path == "value::string_to_number"]
+    ck.anchor(any(f.path.endswith("scan_number") for f in readers) and any(f.path == "value::string_to_number" for f in readers), "Lexer::scan_number and value::string_to_number")
+    for f in readers:
+        if f.derived:
+            continue
+        arith = []
+        for bl in f.blocks:
+            for s in bl["s"]:
+                if s[0] == "a" and s[2][0] == "bin" and s[2][1] in ("Add", "Sub", "Mul", "Div", "Rem") and fx.tys(s[2][4]) in ("f64", "f32"):
+                    arith.append(s)
+        produces = []
+        for bl in f.blocks:
+            for s in bl["s"]:
+                if s[0] == "a" and s[2][0] == "agg" and s[2][1].get("v") == "Number" and s[2][1].get("p") in ("lexer::TokenKind", "value::JsValue"):
+                    produces.append(s)
+        if not arith and not produces and not f.path.endswith(("scan_number", "string_to_number")):
+            continue
+        ck.instance("R3.correctly-rounded-reader", f.path, F.short_span(f.span), ok=not arith)
+        for s in arith:
+            ck.finding("R3.correctly-rounded-reader", "R3.correctly-rounded-reader/%s" % f.parent, F.short_span(s[3]),
+                       "`%s` computes an f64 with `%s` while reading a number: digit-wise accumulation rounds at every step, so long literals are not the correctly rounded double" % (f.parent, s[2][1]))
+        for s in produces:
+            op = s[2][2][0]
+            ok = False
+            if op[0] == "k":
+                ok = True
+            elif op[0] in ("c", "m") and not op[1][1]:
+                d0 = M.trace_back(f, op[1][0])
+                if d0 and d0[1] != "T" and d0[2][0] == "cast" and d0[2][1] == "IntToFloat":
+                    ok = True
+                elif d0 and d0[1] == "T":
+                    # parse::<f64>() possibly through unwrap_or / ok / `?`
+                    seen = 0
+                    cur = d0
+                    while cur and cur[1] == "T" and seen < 6:
+                        seen += 1
+                        name = cur[2][1].get("d", "")
+                        if name.endswith("::parse") and cur[2][1].get("targs") and fx.tys(cur[2][1]["targs"][0]) == "f64":
+                            ok = True
+                            break
+                        a = cur[2][2]
+                        if a and a[0][0] in ("c", "m") and not a[0][1][1]:
+                            cur = M.trace_back(f, a[0][1][0])
+                        else:
+                            break
+                elif d0 and d0[1] != "T" and d0[2][0] == "use":
+                    ok = True  # copy of an existing number (e.g. cloning a token)
+            ck.instance("R3.correctly-rounded-reader", "%s builds %s::Number" % (f.path, s[2][1]["p"].split("::")[-1]), F.short_span(s[3]), ok=ok)
+            if not ok:
+                ck.finding("R3.correctly-rounded-reader", "R3.number-provenance/%s" % f.parent, F.short_span(s[3]),
+                           "`%s` builds a Number whose value comes neither from str::parse::<f64> nor from a single integer->float cast" % f.parent)
+
     # positive control
     ctl = F.load_fixture()
     bad = helper_bad_casts(ctl, ctl.one("c15::bad_to_int32"))[1]
